@@ -8,7 +8,8 @@ T=/tmp/vt_$NAME
 rm -rf $T; mkdir -p $T
 git -C /repo worktree add -q --detach $T/repo HEAD || exit 2
 if ! git -C $T/repo apply $PATCH; then echo "PATCH DOES NOT APPLY"; git -C /repo worktree remove --force $T/repo; rm -rf $T; exit 2; fi
-rsync -a --exclude out --exclude target --exclude .git /verif/ $T/verif/
+# the COMMITTED state of /verif (work in progress in the working tree must not leak into the run)
+mkdir -p $T/verif && git -C /verif archive HEAD | tar -x -C $T/verif
 sed -i "s#path = \"/repo\"#path = \"$T/repo\"#" $T/verif/harness/Cargo.toml
 mkdir -p $T/verif/out
 for P in "$@"; do
